@@ -57,6 +57,7 @@ ASSUMPTIONS = ["the parsing half of this property is input space; the simulator 
 BUDGETS = {"quick": (36000, 90), "thorough": (2500000, 285)}
 TOP = 1.0 - 2.0 ** -53
 SHAPES = ["dict", "dict_lower", "dict_upper", "dict_mixed", "pairs", "getter", "response", "attr_str", "headers_and_attr",
+          "empty_dict_and_response", "empty_list_and_response",
           "dict", "pairs", "getter", "response",   # (weights)
           "hostile_getter", "hostile_items", "hostile_mapping", "non_iterable", "bad_pairs", "hostile_str", "hostile_response"]
 HOSTILE_SHAPES = {"hostile_getter", "hostile_items", "hostile_mapping", "non_iterable", "bad_pairs", "hostile_str", "hostile_response"}
@@ -252,6 +253,12 @@ def build_exc(att, wall_us):
         e.headers = Getter({"Retry-After": header})
     elif shape == "response":
         e.response = Resp({"Retry-After": header})
+    elif shape == "empty_dict_and_response":
+        e.headers = {}
+        e.response = Resp({"Retry-After": header})
+    elif shape == "empty_list_and_response":
+        e.headers = []
+        e.response = Resp({"retry-after": header})
     else:  # headers_and_attr: a non-parsable attribute must fall through to the header
         e.retry_after = "n/a"
         e.headers = {"Retry-After": header}
